@@ -193,12 +193,16 @@ func (rn *runner) runGroupCase(c *Case) {
 		}
 	}
 	rn.gobserve(gi)
-	for i := range c.Reqs {
-		if c.Reqs[i].Op == "rechelper" {
-			rn.recHelper(&c.Reqs[i])
+	reqs := c.Reqs
+	if len(reqs) == 0 && rn.pool != nil { // the request product is given once per file (pool line), not per case
+		reqs = rn.pool.Reqs
+	}
+	for i := range reqs {
+		if reqs[i].Op == "rechelper" {
+			rn.recHelper(&reqs[i])
 			continue
 		}
-		rn.gserve(gi, &c.Reqs[i])
+		rn.gserve(gi, &reqs[i])
 	}
 }
 
